@@ -130,6 +130,8 @@ var (
 	startPool = []time.Time{
 		time.Date(2019, 1, 1, 0, 0, 0, 0, time.UTC), time.Date(2020, 1, 1, 0, 0, 0, 0, time.UTC),
 		time.Date(2020, 6, 15, 0, 0, 0, 0, time.UTC), time.Date(2021, 3, 1, 0, 0, 0, 0, time.UTC),
+		// dates whose protobuf form has a zero field: the epoch itself ({0,0}), one nanosecond off it, a pre-1970 date
+		time.Unix(0, 0).UTC(), time.Unix(0, 1).UTC(), time.Unix(-1, 999999999).UTC(), time.Date(1969, 7, 20, 0, 0, 0, 0, time.UTC),
 	}
 )
 
